@@ -141,6 +141,19 @@ Definition canon_hosts (sizes : list nat) : list yv :=
 Definition idx_list (names : list yv) (l : list yv) : list nat :=
   flat_map (fun s => match index_yv s names with Some i => [i] | None => [] end) l.
 
+(* _validate_host_config's value rule and _get_host_value, as named functions of the optional `value:` entry
+   and of the value sensitive_hosts declares for the address (Level-2 group T13 ties them to the source) *)
+Definition host_value_ok (v : option yv) (sv : option Z) : bool :=
+  match v with
+  | None => true
+  | Some v => is_num v && match sv with Some sv' => num_fx v =? sv' | None => true end
+  end.
+Definition host_value (v : option yv) (sv : option Z) : Z :=
+  match sv with
+  | Some sv' => sv'
+  | None => match v with Some v => num_fx v | None => 0 end
+  end.
+
 Definition parse_hostfw (sizes : list nat) (services : list yv) (v : option yv)
   : option (list (addr * list nat)) :=
   match v with
@@ -171,18 +184,9 @@ Definition parse_host (sizes : list nat) (oss services processes : list yv)
       | None => None
       | Some hfw =>
         let a := z_addr p in
-        let value_ok :=
-          match lookup f_value c with
-          | None => true
-          | Some v => is_num v && match assoc a sens with
-                                  | Some sv' => num_fx v =? sv'
-                                  | None => true end
-          end in
+        let value_ok := host_value_ok (lookup f_value c) (assoc a sens) in
         if negb value_ok then None else
-        let value := match assoc a sens with
-                     | Some sv' => sv'
-                     | None => match lookup f_value c with Some v => num_fx v | None => 0 end
-                     end in
+        let value := host_value (lookup f_value c) (assoc a sens) in
         Some (a, mkCfg (map (fun o => key_eqb o os) oss)
                        (map (fun s => mem_yv s sv) services)
                        (map (fun s => mem_yv s pc) processes)
